@@ -106,8 +106,11 @@ func (g *Gen) LeafOp(op string) *R {
 	case "unimpl":
 		return g.node(op, []string{g.word(), g.rng.Pick(urlsPool), g.word()}, nil)
 	case "uleaf":
-		if g.rng.Bool() {
+		switch g.rng.Intn(3) {
+		case 0:
 			return g.node(op, []string{g.word()}, []int{0})
+		case 1:
+			return g.node(op, []string{g.word()}, []int{2})
 		}
 		return g.node(op, []string{g.word(), "safe1", "safe two"}, []int{1})
 	}
@@ -298,7 +301,16 @@ func (g *Gen) Perturb(r *R) *R {
 	ns := nodesOf(c, nil)
 	for try := 0; try < 8; try++ {
 		n := ns[g.rng.Intn(len(ns))]
-		switch g.rng.Intn(4) {
+		switch g.rng.Intn(5) {
+		case 4: // a sometimes-leaf type: drop or add everything below a full-message foreign wrapper
+			if n.Op == "uwrap" && len(n.NIn) > 0 && n.NIn[0] == 1 {
+				n.Op, n.NIn, n.K = "uleaf", []int{2}, nil
+				return c
+			}
+			if n.Op == "uleaf" && len(n.NIn) > 0 && n.NIn[0] == 2 {
+				n.Op, n.NIn, n.K = "uwrap", []int{1}, []*R{g.LeafOp("goerr")}
+				return c
+			}
 		case 0: // one message
 			if len(n.In) > 0 && n.Op != "telemetry" && n.Op != "tags" {
 				n.In[0] = n.In[0] + "'"
